@@ -99,6 +99,7 @@ def run(ctx):
                 carried = True
             reqs = []
             prev = None
+            cur3_at_start = state3["cur"]
             hist_payload = []
             focus_sat = rng.choice(sats)
             # some histories pass ONE custom dict object to several requests (a settings dict reused for every file of a batch)
@@ -181,7 +182,8 @@ def run(ctx):
                                       bad[0], np.asarray(getattr(cal, bad[0])).ravel()[:3], np.asarray(want[bad[0]]).ravel()[:3]),
                                   {"history": hist_payload[:i + 1], "carried": carried},
                                   cls="impure:%s" % ("version" if bad == ["version"] else "values"))
-                tokens.append("%d/%d/%d/%s" % (sats.index(sat), f, len(keys), ",".join(map(str, ck)) or "_"))
+                tokens.append("%d/%d/%d/%s/%s" % (sats.index(sat), f, len(keys), ",".join(map(str, ck)) or "_",
+                                                "_" if rewrite_to is None else rewrite_to))
                 # implementation's source map for the model comparison: per key, which source does the result carry
                 src = []
                 for k, key in enumerate(keys):
@@ -208,7 +210,7 @@ def run(ctx):
                 if ref is not None and Calibrator.default_coeffs != ref:
                     ctx.violation("after the history the class-level default coefficients differ from the content of their file",
                                   {"history": hist_payload}, cls="defaults-mutated")
-            drv_line = "c16 " + " ".join(tokens)
+            drv_line = "c16 init/%d " % cur3_at_start + " ".join(tokens)
             if tokens:
                 drv[-len(tokens)] = (drv[-len(tokens)][0], drv[-len(tokens)][1], hist_payload, drv_line)
             if h < 3:
